@@ -284,3 +284,88 @@ PROPS['C13'] = dict(
          dict(target='coro-nost', family='coro', mode='random', cases=200000, workers=6, timeout=3000),
          dict(target='coro', family='coro', mode='dfs', bound=2, workers=10, timeout=3000, args=['--dfs-cap', '100000'])]),
 )
+
+PIPE_ASSUME = ['single OS thread, YACLIB_FAULT=OFF build with coroutines; deterministic',
+               'the reference interpreter (~150 lines over plain values) is the oracle; it was validated by zero '
+               'disagreements on the unchanged tree and by seeded changes it flags',
+               'universe: {int, void} x {Future, FutureOn, Task}, one custom error type carrying a payload; <= 7 steps']
+PIPE_NOTE = 'Differential against a hand-written model: a shared misunderstanding of the documentation would go unnoticed.'
+def pipe_jobs(fam):
+    return q([dict(target='pipeline', family=fam, mode='random', cases=60000, workers=12, timeout=900)],
+             [dict(target='pipeline', family=fam, mode='random', cases=1500000, workers=16, timeout=3000, max_size=200)])
+PROPS['C02'] = dict(
+    level='exploration', assumptions=PIPE_ASSUME, level_note=PIPE_NOTE,
+    technique='rapidcheck-generated pipeline programs run through a typed interpreter and compared with a reference model '
+              '(final Result with payload + ordered list of invoked callbacks)',
+    level_text='Generated programs over every source, attachment mode, callback signature class, output type and return '
+               'class (plain, Result, throwing, Future, SharedFuture, Task) with two instrumented executors are executed '
+               'by the library and by the reference interpreter; final state, value / error code / exception identity and '
+               'the ordered list of invoked callbacks must agree (values are transformed +1 and errors carry a payload so '
+               'that a skipped or doubled step and a replaced failure are visible).',
+    jobs=pipe_jobs('pipeline'))
+PROPS['C12'] = dict(
+    level='exploration', assumptions=PIPE_ASSUME, level_note=PIPE_NOTE + ' LazyContract heads are not generated (see known findings / DESIGN).',
+    technique='rapidcheck-generated lazy pipelines x start mode / abandonment; nothing-before-start, reference model and '
+              'eager-twin differential',
+    level_text='The same programs behind MakeTask / Schedule heads are started by ToFuture, ToFuture(e), Get, Detach(+sink), '
+               'Detach(e), returned from a continuation of an eager pipeline, co_await and Await, or abandoned: before the '
+               'start no callback ran and no executor saw a Submit; afterwards each step ran at most once in pipeline order '
+               'and the final Result equals the reference model and the eager twin (same steps behind MakeFuture / Run); '
+               'an abandoned Task runs exactly the callbacks of the cancelled-chain model (no value callback).',
+    jobs=pipe_jobs('lazy'))
+PROPS['C20'] = dict(
+    level='exploration', assumptions=PIPE_ASSUME + ['global operator new/delete are replaced by counting versions in the harness binary'],
+    level_note='Counts calls of operator new; allocations through malloc (exception objects) are not counted by design.',
+    technique='rapidcheck-generated pipeline programs and combinator / wait calls with operator-new counting against the '
+              'model\'s construct count, constant-in-n and zero bounds',
+    level_text='For generated pipelines the number of operator new calls must not exceed the number of constructs counted '
+               'by the reference model (one per Run / Schedule / Then* / Detach* / Make* / contract / inner future). A second '
+               'family calls WhenAll / WhenAny / Join in every form and policy with n up to 256 inputs (count must not grow '
+               'with n and stay <= 8) and Wait / WaitFor / WaitUntil / Get / Strand submission / co_await of plain futures '
+               '(exactly 0).',
+    jobs=q([dict(target='pipeline', family='allocs', mode='random', cases=60000, workers=10, timeout=900),
+            dict(target='allocbounds', family='allocbounds', mode='random', cases=3000, workers=4, timeout=900)],
+           [dict(target='pipeline', family='allocs', mode='random', cases=1500000, workers=12, timeout=3000, max_size=200),
+            dict(target='allocbounds', family='allocbounds', mode='random', cases=40000, workers=4, timeout=3000)]))
+
+PROPS['C05'] = dict(
+    level='exploration', assumptions=PIPE_ASSUME + FIBER_ASSUME, level_note=PIPE_NOTE,
+    technique='(a) rapidcheck-generated pipelines with per-step executor choice and a refusal point per executor against the '
+              'placement model; (b) instrumented jobs on Inline/Manual/Strand/FairThreadPool stacks under explorer '
+              'schedules while a fiber stops the pool (Call xor Drop accounting)',
+    level_text='(a) every Call-type step whose executor accepted the job must have run inside that executor (tag set '
+               'around Call), Then() on a FutureOn/Task must use the inherited executor computed by the model, the number '
+               'of Submits per executor must equal the model (ThenInline submits nothing) and after a refused Submit the '
+               'step sees StopError, value callbacks are skipped and the chain completes with the model\'s result; '
+               '(b) every job handed to the library\'s executors is Called xor Dropped exactly once, Drop only if '
+               'something refused, under explorer-chosen interleavings of Submit with Stop/SoftStop/HardStop.',
+    jobs=q([dict(target='pipeline', family='placement', mode='random', cases=60000, workers=8, timeout=900),
+            dict(target='exec', family='execjobs', mode='random', cases=15000, workers=8, timeout=900)],
+           [dict(target='pipeline', family='placement', mode='random', cases=1500000, workers=10, timeout=3000, max_size=200),
+            dict(target='exec', family='execjobs', mode='random', cases=300000, workers=10, timeout=3000)]))
+REL = {'VF_RELEASE_ONLY': '1'}
+PROPS['C03'] = dict(
+    level='exploration', assumptions=PIPE_ASSUME + FIBER_ASSUME,
+    level_note='Release is observed through Tracked payloads / functor captures and a counting operator new/delete; memory '
+               'obtained otherwise is covered by ASan only.',
+    technique='generators of C02/C12 (drop / refusal / throw / never-started dimensions), C01, C06, C09, C10, C13 and C16 '
+              're-run under the release oracle only: Tracked life-cycle, constructed == destroyed, heap-block balance, ASan',
+    level_text='The pipeline programs (handles dropped, executors refusing from their k-th Submit, throwing callbacks, '
+               'Tasks never started) and the fiber families of C01, C06, C09, C10, C13 and C16 (every interleaving the '
+               'explorer generates) are executed with only the ownership clauses armed: no operation on a destroyed or '
+               'moved-from payload, functor captures and payloads constructed == destroyed, live heap blocks back to the '
+               'starting level at quiescence, coroutine frame locals destroyed once; ASan reports always count.',
+    jobs=q([dict(target='pipeline', family='release', mode='random', cases=60000, workers=4, timeout=900),
+            dict(target='handoff', family='handoff', mode='random', cases=15000, workers=2, timeout=900, env=REL),
+            dict(target='shared', family='shared', mode='random', cases=10000, workers=3, timeout=900, env=REL),
+            dict(target='when', family='whenall', mode='random', cases=10000, workers=2, timeout=900, env=REL),
+            dict(target='when', family='whenany', mode='random', cases=10000, workers=2, timeout=900, env=REL),
+            dict(target='coro', family='coro', mode='random', cases=8000, workers=2, timeout=900, env=REL),
+            dict(target='wait', family='waitgroup', mode='random', cases=8000, workers=1, timeout=900, env=REL)],
+           [dict(target='pipeline', family='release', mode='random', cases=1500000, workers=4, timeout=3000, max_size=200),
+            dict(target='handoff', family='handoff', mode='random', cases=300000, workers=2, timeout=3000, env=REL),
+            dict(target='shared', family='shared', mode='random', cases=200000, workers=3, timeout=3000, env=REL),
+            dict(target='when', family='whenall', mode='random', cases=200000, workers=2, timeout=3000, env=REL),
+            dict(target='when', family='whenany', mode='random', cases=200000, workers=2, timeout=3000, env=REL),
+            dict(target='coro', family='coro', mode='random', cases=150000, workers=2, timeout=3000, env=REL),
+            dict(target='wait', family='waitgroup', mode='random', cases=150000, workers=1, timeout=3000, env=REL)]))
